@@ -2,6 +2,7 @@ package sym
 
 import (
 	"fmt"
+	"os"
 	"go/token"
 	"go/types"
 	"math"
@@ -172,6 +173,9 @@ func registerZZ(in *Interp) {
 				tp, ok := p.(targetPanic)
 				if !ok {
 					panic(p)
+				}
+				if os.Getenv("SYMGO_DEBUG") != "" {
+					fmt.Fprintf(os.Stderr, "Try: panic %q at %s\n", tp.msg, tp.where)
 				}
 				res = tuple{true, strOrSym(tp.msg)}
 			}
@@ -393,6 +397,18 @@ func registerStd(in *Interp) {
 		if s, ok := a[0].(string); ok {
 			r, w := utf8.DecodeRuneInString(s)
 			return tuple{int64(r), int64(w)}
+		}
+		ss := a[0].(*SymStr)
+		switch b0 := ss.E[0].(type) {
+		case int64:
+			if b0 < utf8.RuneSelf {
+				return tuple{b0, int64(1)}
+			}
+		case *Sym:
+			// ASCII fast path (same result as the library, simpler term)
+			if in.branch(in.TC.App(BoolSort, "bvult", b0.T, BVConst(utf8.RuneSelf, 8))) {
+				return tuple{&Sym{T: in.resize(b0.T, 32, false)}, int64(1)}
+			}
 		}
 		return in.callBody(fr, fn, a)
 	}
